@@ -7,35 +7,37 @@
 (* _util/func/arg/utilfuncargiter.py  iter_func_args.                      *)
 (*                                                                         *)
 (* Two halves, as in the code:                                             *)
-(*   decoration time   Gen(sig): one localisation snippet per ANNOTATED    *)
-(*                     parameter, carrying  arg_index = position of the    *)
-(*                     parameter in iter_func_args order  and its name;    *)
-(*                     Keywordable(sig) = names of flexible + keyword-only *)
-(*                     parameters (only materialised when a variadic       *)
-(*                     keyword parameter exists); NeedArgsLen.             *)
+(*   decoration time   GenCode(sig): one localisation snippet per          *)
+(*                     ANNOTATED parameter, carrying  arg_index = position *)
+(*                     of the parameter in iter_func_args order  and its   *)
+(*                     name; Keywordable(sig) = names of flexible +        *)
+(*                     keyword-only parameters (only materialised when a   *)
+(*                     variadic keyword parameter exists); NeedArgsLen.    *)
 (*   call time         wrapper(star-args, star-star-kwargs): one action    *)
 (*                     per generated clause: InitArgsLen, CheckPosOnly,    *)
-(*                     CheckFlex,                                          *)
-(*                     CheckVarPos, CheckKwOnly, CheckVarKw, Raise,        *)
-(*                     CallOriginal, CheckReturn.                          *)
+(*                     CheckFlex, CheckVarPos, CheckKwOnly, CheckVarKw,    *)
+(*                     Raise, CallOriginal, CheckReturn.                   *)
 (* The wrapper never binds arguments itself: it indexes args / probes      *)
 (* kwargs, and only the call-through to __beartype_func with the same      *)
-(* args and kwargs makes CPython bind.  The declarative side is  PyBind(sig, call):        *)
-(* CPython's binding rules, and  Expected = the (parameter, value) pairs   *)
-(* the property wants checked.  The invariants relate the two.             *)
+(* args and kwargs makes CPython bind.  The declarative side is            *)
+(* PyBind(sig, call) = CPython's binding rules, and  Expected = the        *)
+(* (parameter, value) pairs the property wants checked.  The invariants    *)
+(* relate the two.                                                         *)
 (*                                                                         *)
 (* Values are identified by how they were passed: "p1","p2",.. (i-th       *)
 (* positional), a keyword's value by the keyword's name, "D" = the default *)
 (* of an unpassed parameter (which VIOLATES the annotation, so a wrapper   *)
-(* that checks defaults is visible).  Every annotation is `int`; a tag     *)
-(* "g" / "b" says whether the value satisfies it.                          *)
+(* that checks defaults is visible).  Every annotation behaves like `int`; *)
+(* a tag "g" / "b" says whether the value satisfies it.                    *)
 (*                                                                         *)
 (* Mode "check": the state machine below is explored action by action.     *)
 (* Mode "emit" : the state is the signature only; one JSON row per         *)
 (*               signature carries, for every call, PyBind and the final   *)
 (*               wrapper frame computed by Run = iteration of the very     *)
 (*               same step operators (case table for the conformance       *)
-(*               driver).                                                  *)
+(*               driver); the clauses are re-evaluated on every row.       *)
+(* Mutant # "none" switches on one plausible wrong design; TLC must reject *)
+(* each (non-vacuity).                                                     *)
 (***************************************************************************)
 EXTENDS Naturals, Sequences, FiniteSets, TLC, Json
 
@@ -106,38 +108,53 @@ TagOf(c, v) == IF v = "D" THEN "b"                       \* defaults violate the
                ELSE c.pos[PosIdx(v)]
 
 (* ---- declarative: CPython's argument binding ------------------------------------- *)
+\* what the function object knows about its parameters (co_argcount, co_posonlyargcount,
+\* co_kwonlyargcount, co_varnames, __defaults__, __kwdefaults__, co_flags, __annotations__)
+Facts(sig) ==
+  LET np == NPos(sig) IN
+  [np    |-> np,
+   pos   |-> [i \in 1..np |-> sig[i].name],                     \* positional parameters, in order
+   byKw  |-> NamesOf(sig, {"flex", "kwonly"}),                   \* parameters a keyword can name
+   named |-> { sig[i].name : i \in Named(sig) },
+   req   |-> { sig[i].name : i \in { j \in Named(sig) : ~sig[j].dflt } },
+   vp    |-> Has(sig, "varpos"), vk |-> Has(sig, "varkw"),
+   ann   |-> { sig[i].name : i \in { j \in DOMAIN sig : sig[j].ann } },
+   order |-> [i \in DOMAIN sig |-> sig[i].name]]
+
 NoBind == [err |-> TRUE, one |-> EmptyFn, star |-> <<>>, kw |-> {}]
-PyBind(sig, c) ==
+PyBindF(F, c) ==
   LET n      == Len(c.pos)
       K      == DOMAIN c.kw
-      np     == NPos(sig)
-      byKw   == NamesOf(sig, {"flex", "kwonly"})          \* parameters a keyword can name
-      filled == { sig[i].name : i \in 1..Min(n, np) }     \* filled positionally
-      excess == K \ byKw                                    \* incl. names of positional-only parameters
-      tooMany  == n > np /\ ~Has(sig, "varpos")
-      multiple == (K \cap byKw) \cap filled # {}
-      unexpect == excess # {} /\ ~Has(sig, "varkw")
-      missing  == \E i \in Named(sig) : ~sig[i].dflt /\ sig[i].name \notin filled \cup (K \cap byKw)
+      filled == { F.pos[i] : i \in 1..Min(n, F.np) }      \* filled positionally
+      named  == K \cap F.byKw                               \* keywords that name a parameter
+      excess == K \ F.byKw                                  \* incl. names of positional-only parameters
+      tooMany  == n > F.np /\ ~F.vp
+      multiple == named \cap filled # {}
+      unexpect == excess # {} /\ ~F.vk
+      missing  == F.req \ (filled \cup named) # {}
   IN IF tooMany \/ multiple \/ unexpect \/ missing THEN NoBind
      ELSE [err  |-> FALSE,
-           one  |-> [nm \in { sig[i].name : i \in Named(sig) } |->
-                       IF nm \in filled THEN PV[CHOOSE i \in 1..np : sig[i].name = nm]
-                       ELSE IF nm \in K \cap byKw THEN nm ELSE "D"],
-           star |-> IF Has(sig, "varpos") /\ n > np THEN [j \in 1..(n - np) |-> PV[np + j]] ELSE <<>>,
+           one  |-> [nm \in F.named |->
+                       IF nm \in filled THEN PV[CHOOSE i \in 1..F.np : F.pos[i] = nm]
+                       ELSE IF nm \in named THEN nm ELSE "D"],
+           star |-> IF F.vp /\ n > F.np THEN [j \in 1..(n - F.np) |-> PV[F.np + j]] ELSE <<>>,
            kw   |-> excess]
+PyBind(sig, c) == PyBindF(Facts(sig), c)
 
 \* what C04 wants checked: every PASSED value, against the parameter it is bound to
-Expected(sig, B) ==
-  { <<sig[i].name, B.one[sig[i].name]>> : i \in { j \in Named(sig) : sig[j].ann /\ B.one[sig[j].name] # "D" } }
-  \cup { <<VPN, B.star[j]>> : j \in { x \in DOMAIN B.star : \E i \in DOMAIN sig : sig[i].kind = "varpos" /\ sig[i].ann } }
-  \cup { <<VKN, nm>> : nm \in { x \in B.kw : \E i \in DOMAIN sig : sig[i].kind = "varkw" /\ sig[i].ann } }
+ExpectedF(F, B) ==
+  IF B.err THEN {}
+  ELSE { <<nm, B.one[nm]>> : nm \in { x \in F.named \cap F.ann : B.one[x] # "D" } }
+       \cup (IF VPN \in F.ann THEN { <<VPN, B.star[j]>> : j \in DOMAIN B.star } ELSE {})
+       \cup (IF VKN \in F.ann THEN { <<VKN, nm>> : nm \in B.kw } ELSE {})
+Expected(sig, B) == ExpectedF(Facts(sig), B)
 BadPairs(c, S) == { e \in S : TagOf(c, e[2]) = "b" }
 \* the first parameter (signature order) one of whose bound values is bad
-FirstBad(sig, c, B) ==
-  LET bad == BadPairs(c, Expected(sig, B))
-      hit(i) == \E e \in bad : e[1] = sig[i].name
-      i0  == CHOOSE i \in DOMAIN sig : hit(i) /\ (\A j \in 1..(i - 1) : ~hit(j))
-  IN sig[i0].name
+FirstBadF(F, c, E) ==
+  LET bad == { e[1] : e \in BadPairs(c, E) }
+      i0  == CHOOSE i \in DOMAIN F.order : F.order[i] \in bad /\ (\A j \in 1..(i - 1) : F.order[j] \notin bad)
+  IN F.order[i0]
+FirstBad(sig, c, B) == FirstBadF(Facts(sig), c, Expected(sig, B))
 
 (* ---- decoration time: the generated code ------------------------------------------ *)
 \* arg_index = enumerate(iter_func_args(...)) = 0-based position in the signature
@@ -153,7 +170,8 @@ Keywordable(sig) ==        \* __beartype_args_name_keywordable
   ELSE NamesOf(sig, {"flex", "kwonly"}) \cup (IF Mutant = "kwable_posonly" THEN NamesOf(sig, {"posonly"}) ELSE {})
 
 \* the wrapper function object: its clauses and the hidden defaults they read
-GenCode(sig) == [G |-> GenChecks(sig), needlen |-> NeedArgsLen(sig), kwable |-> Keywordable(sig)]
+\* (func = __beartype_func, the original: what CPython consults to bind the call-through)
+GenCode(sig) == [G |-> GenChecks(sig), needlen |-> NeedArgsLen(sig), kwable |-> Keywordable(sig), func |-> Facts(sig)]
 
 Bodies == {"return", "raise"}            \* the original returns a fresh object / raises a fresh exception
 Rets   == {"unann", "good", "bad"}       \* return annotation: none / satisfied / violated by that object
@@ -166,7 +184,7 @@ VariantSeq == << [body |-> "return", ret |-> "unann"], [body |-> "return", ret |
 \* what the wrapper's steps read: its own code, args (n values), kwargs (keys K); sig is read
 \* only by the call-through (CPython binding the original's parameters)
 Ctx(sig, c, code) == [sig |-> sig, c |-> c, G |-> code.G, needlen |-> code.needlen, kwable |-> code.kwable,
-                      n |-> Len(c.pos), K |-> DOMAIN c.kw]
+                      func |-> code.func, n |-> Len(c.pos), K |-> DOMAIN c.kw]
 
 Idle == [pc |-> "idle", i |-> 1, alen |-> 0, checked |-> <<>>, ran |-> 0, recv |-> NoBind, out |-> "", blame |-> ""]
 Enter(x) == [Idle EXCEPT !.pc = IF x.needlen THEN "argslen" ELSE IF x.G = <<>> THEN "call" ELSE "check"]
@@ -203,7 +221,7 @@ StepVarKw(x, w) ==
 StepRaise(x, w) == [w EXCEPT !.out = "ParamViolation", !.blame = x.G[w.i].name, !.pc = "done"]
 \* call-through to __beartype_func with args/kwargs unchanged: CPython binds; the body runs iff binding succeeds
 StepCall(x, v, w) ==
-  LET B == PyBind(x.sig, x.c) IN
+  LET B == PyBindF(x.func, x.c) IN
   IF B.err THEN [w EXCEPT !.out = "TypeError", !.pc = "done"]
   ELSE LET w1 == [w EXCEPT !.ran = @ + (IF Mutant = "call_twice" THEN 2 ELSE 1), !.recv = B] IN
        IF v.body = "raise" THEN [w1 EXCEPT !.out = "exc", !.pc = "done"]          \* propagates unchanged
@@ -310,11 +328,11 @@ OutCode(o) == CASE o = "TypeError" -> 0 [] o = "ParamViolation" -> 1 [] o = "ok"
                 [] o = "ReturnViolation" -> 4
 CallRow(s, cd, c) ==
   LET x    == Ctx(s, c, cd)
-      B    == PyBind(s, c)
-      E    == Expected(s, B)
+      B    == PyBindF(cd.func, c)
+      E    == ExpectedF(cd.func, B)
       good == AllGood(c, B, E)
       bad  == SomeBad(c, B, E)
-      fb   == IF bad THEN FirstBad(s, c, B) ELSE ""
+      fb   == IF bad THEN FirstBadF(cd.func, c, E) ELSE ""
       pre  == RunPre(x, Enter(x))
       fin  == [k \in DOMAIN VariantSeq |-> RunFrom(x, VariantSeq[k], pre)]
   IN [p   |-> c.pos, k |-> c.kw,
